@@ -871,6 +871,14 @@ func c09PullCase(t *testing.T, out *zzverif.Out, rng *zzverif.Rng, dir string, t
 					via = "plan-digest-lie"
 				case failedWhileFetching[l.Digest]:
 					via = "size-shortcut-after-failed-attempt"
+				default:
+					// the byte counter is global: a plan of ANOTHER layer of the same manifest that
+					// is not a partition can make up for bytes this layer never received
+					for _, o := range ls {
+						if flag(o.Digest).notPartition {
+							via = "plan-not-partition cross-layer=1"
+						}
+					}
 				}
 				sum := sha256.Sum256(b)
 				l2s = append(l2s, [2]string{"pull-linked-layer-unverified",
